@@ -41,6 +41,37 @@ def iers_year_sets():
     return jan, jul
 
 
+def leap_pair(eng, year_lin):
+    """(leap, not leap) as conditions that carry the arithmetic facts tying the three remainders to the year and to one another
+    (y = k*q + r with the sign of the truncating remainder; y % 400 = 100 j + y % 100; y % 100 = 4 i + y % 4).  With them a path
+    that never computed one of the remainders - a nested `if y % 100 == 0 { y % 400 == 0 } else { y % 4 == 0 }` - is judged as
+    completely as one that tested all three."""
+    x = year_lin
+    int_lo, int_hi = -(1 << 31), (1 << 31) - 1
+
+    def at(kind, k):
+        if kind == "tdiv":
+            return eng.atom("tdiv(%r,%d)" % (x, k), int_lo, int_hi, "tdiv", (x, k))
+        return eng.atom("trem(%r,%d)" % (x, k), -(k - 1), k - 1, "trem", (x, k))
+    r = {k: at("trem", k) for k in (4, 100, 400)}
+    q = {k: at("tdiv", k) for k in (4, 100, 400)}
+    ji = eng.atom("remlink(%s,%s)" % (r[100].name, r[4].name), -24, 24, "remlink", (Lin.atom(r[100]), Lin.atom(r[4])))
+    jk = eng.atom("remlink(%s,%s)" % (r[400].name, r[100].name), -3, 3, "remlink", (Lin.atom(r[400]), Lin.atom(r[100])))
+    common = TRUE
+    for k in (4, 100, 400):
+        common = c_and(common, c_lin("eq", x - Lin({q[k]: k, r[k]: 1})))
+    common = c_and(common, c_lin("eq", Lin.atom(r[100]) - Lin({ji: 4, r[4]: 1})))
+    common = c_and(common, c_lin("eq", Lin.atom(r[400]) - Lin({jk: 100, r[100]: 1})))
+    pos = c_lin("ge", x)
+    neg = c_lin("lt", x)
+    for a in list(r.values()) + [ji, jk]:
+        pos = c_and(pos, c_lin("ge", Lin.atom(a)))
+        neg = c_and(neg, c_lin("le", Lin.atom(a)))
+    ax = c_and(common, c_or(pos, neg))
+    L = leap_cond(eng, year_lin)
+    return c_and(ax, L), c_and(ax, c_not(L))
+
+
 def leap_cond(eng, year_lin):
     """Oracle leap-year predicate on the truncating-remainder atoms of the given year form."""
     def rem(k):
@@ -57,7 +88,7 @@ def r1_validity(chk, F):
     finals, args = D.run(fn)
     y, mo, d, h, mi, s, ns = [a.lin for a in args]
     jan, jul = iers_year_sets()
-    leap = leap_cond(eng, y)
+    leap, nleap = leap_pair(eng, y)
     ntrue = nfalse = 0
     agg = {}
 
@@ -106,9 +137,9 @@ def r1_validity(chk, F):
                 if m == 2:
                     # (split so that the recorded, test-locked acceptance of 30/31 February in leap years does not hide another one)
                     bad.append(("day>29 in Feb", c_and(c_and(c_lin("eq", mo - 2), c_and(c_lin("ge", d - 30), c_lin("le", d - 31))), leap)))
-                    bad.append(("day 30..31 in Feb of a non-leap year", c_and(c_and(c_lin("eq", mo - 2), c_and(c_lin("ge", d - 30), c_lin("le", d - 31))), c_not(leap))))
+                    bad.append(("day 30..31 in Feb of a non-leap year", c_and(c_and(c_lin("eq", mo - 2), c_and(c_lin("ge", d - 30), c_lin("le", d - 31))), nleap)))
                     bad.append(("day>31 in Feb", c_and(c_lin("eq", mo - 2), c_lin("ge", d - 32))))
-                    bad.append(("29 Feb in a non-leap year", c_and(c_and(c_lin("eq", mo - 2), c_lin("eq", d - 29)), c_not(leap))))
+                    bad.append(("29 Feb in a non-leap year", c_and(c_and(c_lin("eq", mo - 2), c_lin("eq", d - 29)), nleap)))
                 else:
                     bad.append(("day>%d in month %d" % (lim, m), c_and(c_lin("eq", mo - m), c_lin("ge", d - (lim + 1)))))
             # second == 60 only at 23:59 on 30 June of a July-year / 31 December before a January-year
@@ -190,7 +221,7 @@ def r2_tables(chk, F):
     # leap-year predicate: residue decision table
     fn = F.free_fn("gregorian::is_leap_year")
     finals, args = D.run(fn)
-    leap = leap_cond(eng, args[0].lin)
+    leap, nleap = leap_pair(eng, args[0].lin)
     n = 0
     for st in finals:
         if st.end != "return":
@@ -201,7 +232,7 @@ def r2_tables(chk, F):
             continue
         for sense, alt in alts:
             n += 1
-            want_c = leap if not sense else c_not(leap)
+            want_c = leap if not sense else nleap
             bad = any(D.feasible(st, list(alt) + a2) for a2 in dnf(want_c))
             chk.ob(rule, "is_leap_year", "%s<=>4/100/400-rule" % sense, not bad, "residue decision table", detail=None if not bad else describe_path(eng, st))
     no_bad_events(chk, "C08.R4", "is_leap_year", finals, eng)
@@ -385,7 +416,7 @@ def _r3_cell(chk, F, iterations, month):
                     continue
                 G = D.total(go[0][1])
                 # leap-ness of the year on this path selects the cumulative table
-                leap_y = leap_cond(eng, y)
+                leap_y, nleap_y = leap_pair(eng, y)
                 its = [x for x in st.trace if isinstance(x, tuple) and x and x[0] == "loop-iter"]
                 ends = [x for x in st.trace if isinstance(x, tuple) and x and x[0] == "loop-end"]
                 # loop range: 1900..year when year >= 1900, year..1900 otherwise
@@ -414,14 +445,14 @@ def _r3_cell(chk, F, iterations, month):
                            "linear form", detail={"bounds": (lo_k, hi_k), "month": month, "path": describe_path(eng, st)})
                     continue
                 Kp = lo_k
-                for ly_name, ly_cond, cum in (("leap", leap_y, 1), ("common", c_not(leap_y), 0)):
+                for ly_name, ly_cond, cum in (("leap", leap_y, 1), ("common", nleap_y, 0)):
                     if not any(D.feasible_local(st2, alt) for alt in dnf(ly_cond)):
                         continue
                     cumd = sum(MLEN[:month - 1]) + (1 if (cum and month > 2) else 0)
                     variants = [("", TRUE, 0)]
                     if its:
-                        lv = leap_cond(eng, its[0][3].lin)
-                        variants = [("loop-year-leap", lv, 1 if fwd else -1), ("loop-year-common", c_not(lv), 0)]
+                        lv, nlv = leap_pair(eng, its[0][3].lin)
+                        variants = [("loop-year-leap", lv, 1 if fwd else -1), ("loop-year-common", nlv, 0)]
                     for vn, vcond, delta in variants:
                         for sec60, scond, corr in (("s<60", c_lin("le", s - 59), 0), ("s=60", c_lin("eq", s - 60), -oracle.NS)):
                             cond = c_and(ly_cond, c_and(vcond, scond))
